@@ -236,7 +236,7 @@ func (x *Exec) cutLoop(node ast.Stmt, st *State, cond ast.Expr, post ast.Stmt, b
 	for _, inv := range invs {
 		env := x.loopEnv(st, lc)
 		g := env.evalBool(inv.Expr)
-		x.emit(st, "loop-init", invLabel(label, inv), g, inv.Props, "loop invariant holds on entry: "+inv.Text, node.Pos()).ClauseText = inv.Text
+		x.emitSplit(st, "loop-init", invLabel(label, inv), g, inv.Props, "loop invariant holds on entry: "+inv.Text, node.Pos(), inv.Text)
 	}
 	// 2. havoc what the body may modify before reaching the back edge
 	mods := newModSet()
@@ -406,7 +406,7 @@ func (x *Exec) cutLoop(node ast.Stmt, st *State, cond ast.Expr, post ast.Stmt, b
 				for _, inv := range invs {
 					env := x.loopEnv(b, &lc2)
 					g := env.evalBool(inv.Expr)
-					x.emit(b, "loop-step", invLabel(label, inv), g, inv.Props, "loop invariant preserved: "+inv.Text, node.Pos()).ClauseText = inv.Text
+					x.emitSplit(b, "loop-step", invLabel(label, inv), g, inv.Props, "loop invariant preserved: "+inv.Text, node.Pos(), inv.Text)
 				}
 				if dec != nil {
 					env := x.loopEnv(b, &lc2)
